@@ -447,6 +447,31 @@ def scenarios_c06():
         'B': lambda d: put_alloc(K1, _held(d, K1), 'cur',
                                  d.consumers[K1]['project'],
                                  d.consumers[K1]['user'])(d)}))
+    # an allocation write that also moves the consumer to another project,
+    # user and type, overtaken by a write to the provider it claims on (the
+    # server retries it)
+    out.append(('existing: put other project/user/type | inventory of R', {
+        'A': put_alloc(K1, a1, 'cur', 'proj-moved', 'user-moved',
+                       'MIGRATION'),
+        'B': put_inv(R, 'VCPU', 'cur', {'total': 32,
+                                        'allocation_ratio': 2.0})}))
+    out.append(('existing: post other project | traits of R', {
+        'A': post_allocs({K1: (a1, 'cur', 'proj-moved')}),
+        'B': put_traits(R, 'cur', ['CUSTOM_T1'])}))
+    # one POST carrying DIFFERENT generations for two consumers, one of which
+    # a racing write moves to the generation carried for the other
+    def _k2_once_more(client):
+        d_ = client.call('GET', '/allocations/%s' % K2).json
+        r = client.call('PUT', '/allocations/%s' % K2, {
+            'allocations': d_['allocations'],
+            'project_id': d_['project_id'], 'user_id': d_['user_id'],
+            'consumer_generation': d_['consumer_generation'],
+            'consumer_type': d_.get('consumer_type') or 'INSTANCE'})
+        assert r.status == 204, (r.status, r.body)
+    out.append(('existing: post K1@g, K2@g+1 | put K1@g', {
+        'A': post_allocs({K1: (a1, 'cur', 'pA'),
+                          K2: ({R: {'VCPU': 1}}, 'cur', 'pA')}),
+        'B': put_alloc(K1, a2, 'cur', 'pB')}, _k2_once_more))
     # clearing writes in flight together
     out.append(('existing: put-clear|put-clear identical', {
         'A': put_alloc(K1, {}, 'cur', 'pA'),
@@ -914,7 +939,7 @@ def judge(pid, scen_name, reqs, d0, result, serial, res, use_serial=True):
     # not attributed to it)
     from pv import monitors as _mon
     for n in names:
-        if statuses[n] is None or not 400 <= statuses[n] < 500:
+        if statuses[n] is None or not 200 <= statuses[n] < 500:
             continue
         own = [(seq[i - 1][2], seq[i][2]) for i in range(1, len(seq))
                if seq[i][1] == n]
